@@ -394,9 +394,13 @@ def fusion_pairs(ctx: common.Ctx, n_jobs: int, procs: int = 14):
             continue
         lost = (a | b) - c
         if lost:
+            how = ('a second fusion record whose ACCEPTER is the first record\'s donor transcript (chain; the donor\'s '
+                   'breakpoint lies in an intron)' if r['desc'].get('chain') else
+                   'a second fusion record with the same donor breakpoint (another acceptor, or another '
+                   'position of the same acceptor)')
             ctx.add_violation(
-                f'{len(lost)} peptide(s) reported for a fusion record alone are missing when a second '
-                f'fusion record with the same donor breakpoint (another acceptor, or another position of the same acceptor) is supplied as well, '
-                f'e.g. {sorted(lost)[:3]}', dict(r['desc'], kind='fusion-same-breakpoint', lost=sorted(lost)[:20]))
+                f'{len(lost)} peptide(s) reported for a fusion record alone are missing when {how} is '
+                f'supplied as well, e.g. {sorted(lost)[:3]}',
+                dict(r['desc'], kind='fusion-same-breakpoint', lost=sorted(lost)[:20]))
     shutil.rmtree(gen_ref.WORK, ignore_errors=True)
     return n
